@@ -18,7 +18,7 @@ def allocates (c : Ctl) (now : Int) : Prop :=
   ∃ since, c.run = some since ∧ since + 10 ≤ now ∧ now < exitAt c.terms since
 
 theorem load_valid (ch : Chain) (h : String) (hp : ch.payload = .valid h) :
-    load ch = ({ purchased := ch.purchased, startedAt := ch.startedAt, len := ch.len, dest := some h }, false) := by
+    load ch = ({ purchased := ch.purchased, startedAt := ch.startedAt, len := ch.len, speed := ch.speed, dest := some h }, false) := by
   unfold load; rw [hp]
 
 /-! ### only while -/
@@ -105,6 +105,14 @@ theorem purchase_engages (c : Ctl) (ch : Chain) (now : Int) (h : String) (hn : c
   obtain ⟨hp, ht, hpay⟩ := hl
   simp [onPurchased, hn, load_valid ch h hpay, Terms.shouldRun, hp, ht, fulfilling]
 
+/-- … **under the terms on chain at that moment**: the length and speed the watcher works with are the
+purchase's -/
+theorem purchase_takes_chain_terms (c : Ctl) (ch : Chain) (now : Int) (h : String) (hn : c.run = none) (hl : Live ch now h) :
+    (onPurchased c ch now).terms.len = ch.len ∧ (onPurchased c ch now).terms.speed = ch.speed ∧
+    (onPurchased c ch now).terms.startedAt = ch.startedAt := by
+  obtain ⟨hp, ht, hpay⟩ := hl
+  simp [onPurchased, hn, load_valid ch h hpay, Terms.shouldRun, hp, ht]
+
 /-- **re-engaged after a re-purchase**: close, then purchase again under new terms -/
 theorem repurchase_reengages (c : Ctl) (ch0 ch : Chain) (now : Int) (h : String) (hl : Live ch now h) :
     fulfilling (onPurchased (onClosed c ch0) ch now) = some h :=
@@ -119,7 +127,7 @@ theorem restart_resumes (ch : Chain) (now : Int) (h : String) (hl : Live ch now 
 
 theorem restart_not_live (ch : Chain) (now : Int) (hl : ch.purchased = false ∨ ch.startedAt + ch.len ≤ now) :
     (boot ch now).run = none := by
-  have : ({ purchased := ch.purchased, startedAt := ch.startedAt, len := ch.len } : Terms).shouldRun now = false := by
+  have : ({ purchased := ch.purchased, startedAt := ch.startedAt, len := ch.len, speed := ch.speed } : Terms).shouldRun now = false := by
     unfold Terms.shouldRun
     rcases hl with hl | hl
     · simp [hl]
@@ -143,5 +151,93 @@ theorem dest_update_on_ended_contract_stops (c : Ctl) (ch : Chain) (now : Int) (
   · simp [hp]
   · have : ¬ (ch.purchased = true ∧ now + 10 < ch.startedAt + ch.len) := by intro ⟨_, h2⟩; omega
     simp [this]
+
+/-! ### terms updates, and whole histories -/
+
+/-- **a terms update never disturbs a running fulfilment**: it keeps running, towards the same pool, under
+the terms of its purchase (the new terms apply after the close) … -/
+theorem terms_update_while_running (c : Ctl) (ch : Chain) (hr : c.run.isSome) :
+    (onTermsUpdated c ch).run = c.run ∧ (onTermsUpdated c ch).terms = c.terms ∧
+    fulfilling (onTermsUpdated c ch) = fulfilling c := by
+  simp [onTermsUpdated, hr, fulfilling]
+
+/-- … **and never starts one**: on an idle contract it only replaces the terms held by what the chain says -/
+theorem terms_update_idle (c : Ctl) (ch : Chain) (hn : c.run = none) :
+    (onTermsUpdated c ch).run = none ∧ (onTermsUpdated c ch).terms = (load ch).1 := by
+  simp [onTermsUpdated, hn]
+
+/-- **re-engaged under the new terms after a re-purchase**: close, any terms update in between, purchase —
+the watcher runs with the length and speed the chain holds at the purchase, towards the purchase's pool -/
+theorem repurchase_under_new_terms (c : Ctl) (ch0 ch1 ch : Chain) (now : Int) (h : String) (hl : Live ch now h) :
+    let c' := onPurchased (onTermsUpdated (onClosed c ch0) ch1) ch now
+    fulfilling c' = some h ∧ c'.terms.len = ch.len ∧ c'.terms.speed = ch.speed := by
+  have hn : (onTermsUpdated (onClosed c ch0) ch1).run = none := (terms_update_idle _ ch1 rfl).1
+  exact ⟨(purchase_engages _ ch now h hn hl).2.1, (purchase_takes_chain_terms _ ch now h hn hl).1,
+    (purchase_takes_chain_terms _ ch now h hn hl).2.1⟩
+
+theorem inv_termsUpdated (c : Ctl) (ch : Chain) (hi : Inv c) : Inv (onTermsUpdated c ch) := by
+  unfold onTermsUpdated
+  by_cases hr : c.run.isSome = true
+  · simp only [hr, if_true]; exact hi
+  · have hn : c.run = none := by cases hc : c.run <;> simp_all
+    simp [Inv, hn]
+
+theorem inv_boot (ch : Chain) (now : Int) : Inv (boot ch now) := by
+  unfold boot
+  simp only
+  split
+  · exact (inv_boot_and_handlers _ ch now (by simp [Inv])).1
+  · simp [Inv]
+
+theorem inv_apply (c : Ctl) (e : Ev) (ch : Chain) (now : Int) (hi : Inv c) : Inv (apply c e ch now) := by
+  have hs : Inv (settle c now) := (inv_boot_and_handlers c ch now hi).2.2.2
+  unfold apply
+  cases e with
+  | purchased => exact (inv_boot_and_handlers _ ch now hs).1
+  | closed => exact (inv_boot_and_handlers _ ch now hs).2.1
+  | destUpdated => exact (inv_boot_and_handlers _ ch now hs).2.2.1
+  | termsUpdated => exact inv_termsUpdated _ ch hs
+  | restart => exact inv_boot ch now
+  | tick => exact hs
+
+/-- **for every history** of purchase, close, destination-update and terms-update events, restarts and the
+passing of time, whatever the chain answers at each of them, and from every chain state the node is first
+started in: a running watcher has a destination … -/
+theorem history_inv (ch0 : Chain) (t0 : Int) (h : List (Ev × Chain × Int)) : Inv (runHist (boot ch0 t0) h) := by
+  unfold runHist
+  suffices ∀ c, Inv c → Inv (h.foldl (fun c x => apply c x.1 x.2.1 x.2.2) c) from this _ (inv_boot ch0 t0)
+  induction h with
+  | nil => intro c hc; exact hc
+  | cons x xs ih => intro c hc; exact ih _ (inv_apply c x.1 x.2.1 x.2.2 hc)
+
+/-- … and so **miners are allocated only while the terms held say purchased, unexpired, with a destination** -/
+theorem history_allocates_only_live (ch0 : Chain) (t0 : Int) (h : List (Ev × Chain × Int)) (now : Int)
+    (ha : allocates (runHist (boot ch0 t0) h) now) :
+    let c := runHist (boot ch0 t0) h
+    c.terms.purchased = true ∧ now < c.terms.startedAt + c.terms.len ∧ c.terms.dest.isSome :=
+  allocates_only_live _ now (history_inv ch0 t0 h) ha
+
+/-- the terms of a fulfilment do not change while it continues: neither a purchase event nor a terms update
+nor the passing of time touches the terms of a watcher that keeps running -/
+theorem running_terms_fixed (c : Ctl) (e : Ev) (ch : Chain) (now since : Int)
+    (he : e = .purchased ∨ e = .termsUpdated ∨ e = .tick)
+    (hr : (settle c now).run = some since) : (apply c e ch now).terms = c.terms ∧ (apply c e ch now).run = some since := by
+  have hst : (settle c now).terms = c.terms := by
+    unfold settle; cases c.run with
+    | none => rfl
+    | some s => simp only; split <;> rfl
+  rcases he with he | he | he <;> subst he <;> simp [apply, onPurchased, onTermsUpdated, hr, hst]
+
+-- the hypotheses are met: a history with a terms update in the middle of a running purchase and a
+-- re-purchase under other terms
+example :
+    let ch1 : Chain := { purchased := true, startedAt := 100, len := 300, speed := 1000, payload := .valid "poolx" }
+    let ch2 : Chain := { purchased := false, len := 600, speed := 2000 }
+    let ch3 : Chain := { purchased := true, startedAt := 500, len := 600, speed := 2000, payload := .valid "pooly" }
+    let c := runHist (boot {} 0) [(.purchased, ch1, 100), (.termsUpdated, ch1, 150), (.tick, ch1, 160)]
+    let c' := runHist c [(.closed, ch2, 200), (.termsUpdated, ch2, 210), (.purchased, ch3, 500)]
+    fulfilling c = some "poolx" ∧ c.terms.speed = 1000 ∧ allocates c 160 ∧
+    fulfilling c' = some "pooly" ∧ c'.terms.speed = 2000 ∧ c'.terms.len = 600 := by
+  refine ⟨by decide, by decide, ⟨100, by decide, by decide, by decide⟩, by decide, by decide, by decide⟩
 
 end PRV.Props.C08
